@@ -7,8 +7,8 @@ filtering.  Pools are plain deterministic lists; strategies are Hypothesis strat
 The last sections are used by C03 only: versions with *long digit runs* (wider than any
 machine word, with and without zero padding), *assignment attempts* on a live version object
 (values over the version alphabet, most of them refused only by the colon / hyphen rules), the
-*class* of each operand, and version objects *obtained another way* (copies, pickles, constructor
-calls with an object) that are then changed.
+*class* of each operand, version objects *obtained another way* (copies, pickles, constructor
+calls with an object) that are then changed, and operands that are *plain strings* (either side).
 """
 import itertools
 
@@ -150,7 +150,21 @@ def _version_parts(draw, small_epochs):
     return [e, u, r]
 
 
-_PARTS = {False: _version_parts(False), True: _version_parts(True)}
+@st.composite
+def _separator_rich_parts(draw):
+    """Like _version_parts (large epochs included), but a revision is present 3 times out of 4 and an epoch 5
+    times out of 9, and when present the upstream part may contain hyphens / colons every second time (not every
+    fourth): versions with two or more hyphens / colons are common."""
+    e = draw(epoch_st)
+    r = draw(_REVISION) if draw(_ONE_IN_FOUR) else None
+    hyphen_ok = r is not None and draw(_BOOL)
+    colon_ok = e is not None and draw(_BOOL)
+    u = draw(_UPSTREAM[(hyphen_ok, colon_ok)])
+    return [e, u, r]
+
+
+_BOOL = st.booleans()
+_PARTS = {False: _version_parts(False), True: _version_parts(True), "separator-rich": _separator_rich_parts()}
 
 
 def version_parts(small_epochs=False):
@@ -318,7 +332,6 @@ _MUTS_13 = st.lists(mutation_st, min_size=1, max_size=3)
 _MUTS_12 = st.lists(mutation_st, min_size=1, max_size=2)
 _EQ_MUTS_13 = st.lists(eq_mutation_st, min_size=1, max_size=3)
 _MODE = st.integers(0, 9)
-_BOOL = st.booleans()
 _PERM = st.integers(0, 5)
 
 
@@ -338,12 +351,12 @@ def _near_pair(draw, small_epochs):
     return {"kind": "pair", "a": a, "b": b}
 
 
-_NEAR_PAIR = {False: _near_pair(False), True: _near_pair(True)}
+_NEAR_PAIR = {False: _near_pair(False), True: _near_pair(True), "separator-rich": _near_pair("separator-rich")}
 
 
 def near_pair(small_epochs=False):
     """(a, b): b is a mutation of a (1-3 steps), an equality-preserving respelling, or independent."""
-    return _NEAR_PAIR[bool(small_epochs)]
+    return _NEAR_PAIR[small_epochs if small_epochs == "separator-rich" else bool(small_epochs)]
 
 
 @st.composite
@@ -629,6 +642,72 @@ _CLASSED_PAIR = _classed_pair()
 def classed_pair():
     """A near-miss pair (see near_pair) whose operands are built with independently drawn classes."""
     return _CLASSED_PAIR
+
+
+# ------------------------------------------------------------------------------------------
+# an operand that is a plain string (C03)
+#
+# The class name "str" in "cls" means: that operand is handed to the operator as the version string
+# itself, not as an object (the other operand is an object of one of the FAMILY classes).
+
+STR = "str"
+STR_CLASS_PAIRS = [[c, STR] for c in FAMILY] + [[STR, c] for c in FAMILY]
+# what the enumeration uses: with ALL ordered pairs (a, b) enumerated and both operand orders evaluated for every
+# case, [C, str] already puts every version on either side as the string.  The two library classes face every
+# pair; the user subclasses and the string-first spelling take turns (one of the four per pair)
+STR_CLASS_PAIRS_FULL = [["Version", STR], ["NativeVersion", STR]]
+STR_CLASS_PAIRS_TURNS = [["UserVersion", STR], [STR, "Version"], ["TaggedVersion", STR], [STR, "NativeVersion"]]
+
+# upstream parts with one or more hyphens / colons in every position (first, last, doubled, next to '~')
+U_HYPHENS = ["1-1", "1-0", "1-2", "1-", "-1", "1--1", "1-~", "1~-1", "0-0-0", "1-1-1", "1.0-1", "1-a"]
+U_COLONS = ["1:1", "1:", ":1", "0:0", "1:-1", "1-1:1"]
+
+
+def string_operand_pool():
+    """CLASS_POOL (equal-but-differently-spelled versions and neighbours) plus versions whose upstream part holds
+    hyphens and / or colons, with and without epoch, and their separator-free neighbours."""
+    out = list(CLASS_POOL)
+    for u in U_HYPHENS:
+        for e in (None, "1"):
+            for r in ("0", "1", "~"):
+                out.append(render(e, u, r))
+    for u in U_COLONS:
+        for e in ("0", "1"):
+            for r in (None, "1") if "-" not in u else ("1", "0"):
+                out.append(render(e, u, r))
+    out.extend(["1-2", "1-10", "1.0-2", "1:1-1", "1:1-2", "1:1", "0:1-1", "1-~"])
+    return _dedupe(out)
+
+
+def string_operand_cases():
+    """ALL ordered pairs of string_operand_pool() x (Version, NativeVersion against the string + one of
+    STR_CLASS_PAIRS_TURNS, taking turns along each row and shifted from row to row)."""
+    p = string_operand_pool()
+    n = len(STR_CLASS_PAIRS_TURNS)
+    for i, a in enumerate(p):
+        for j, b in enumerate(p):
+            for c in STR_CLASS_PAIRS_FULL:
+                yield {"kind": "pair", "a": a, "b": b, "cls": c}
+            yield {"kind": "pair", "a": a, "b": b, "cls": STR_CLASS_PAIRS_TURNS[(i + j) % n]}
+
+
+_STR_CLASS_PAIR = st.sampled_from(STR_CLASS_PAIRS)
+
+
+@st.composite
+def _string_operand_pair(draw):
+    case = dict(draw(_NEAR_PAIR["separator-rich" if draw(_ONE_IN_FOUR) else False]))
+    case["cls"] = draw(_STR_CLASS_PAIR)
+    return case
+
+
+_STRING_OPERAND_PAIR = _string_operand_pair()
+
+
+def string_operand_pair():
+    """A near-miss pair from the full version grammar (three times out of four its separator-rich variant: two or
+    more hyphens / colons are common) one of whose operands - either side - is the plain string."""
+    return _STRING_OPERAND_PAIR
 
 
 # ------------------------------------------------------------------------------------------
